@@ -24,7 +24,7 @@ func (c23) Budget(tier string) int {
 	if tier == "thorough" {
 		return 30000
 	}
-	return 1200
+	return 2400
 }
 
 var c23ROMs = []string{"blargg/instr_timing/instr_timing.gb", "blargg/mem_timing/mem_timing.gb", "blargg/halt_bug.gb"}
@@ -34,7 +34,7 @@ func (c23) Describe() engine.Info {
 		Rule: "class program: generated program of 10..120 steps over {write random byte to SB, write random byte to SC, read SB/SC into a buffer, start an OAM DMA, poke timer/LCD/sound registers, EI/DI with timer and VBlank interrupts enabled (handlers return at once), NOP runs}, serial writer attached or nil; class rom: blargg ROMs run as guests, their SB writes snooped by decoding the store instruction at every instruction boundary of the real CPU. " +
 			"Oracle: bytes delivered to the writer == sequence of SB writes (exactly once, in order, nothing else); nothing delivered and no crash with a nil writer; SB and SC read FF. Signature = (class, what preceded the SB write: SC value class / DMA running / interrupt dispatched / LCD on).",
 		Assumptions:    []string{"writer errors make the emulator panic by design; the statement is silent on them and they are not injected", "ROM SB writes are recognised for the store forms LDH (n),A / LD (C),A / LD (nn),A / LD (HL),r / LD (HL),n / LD (rr),A / LD (HL+-),A"},
-		RequiredProbes: []string{"sb_writes", "sb_write_after_sc_external_clock", "sb_write_during_dma", "nil_writer_runs", "sb_sc_reads", "rom_sb_writes"},
+		RequiredProbes: []string{"sb_writes", "sb_write_after_sc_external_clock", "sb_write_during_dma", "nil_writer_runs", "sb_sc_reads", "rom_sb_writes", "blocked_in_writer_while_other_instance_runs"},
 		RealComponents: realComponents, StubComponents: stubComponents,
 	}
 }
@@ -47,16 +47,38 @@ func (c23) Generate(r *engine.Rand, index int, tier string) *engine.Scenario {
 		sc.Cycles = 3_000_000
 		return sc
 	}
+	if index%10 == 7 {
+		// two instances in one process, each with its own (slow) writer: an instance blocks inside its
+		// writer before the byte has been consumed while the scheduler runs the other one, which writes
+		// to its own SB meanwhile. Each writer must receive exactly its own guest's bytes.
+		sc.Class = "pair"
+		sc.Serial = true
+		for i := 0; i < 2; i++ {
+			code, expect, _ := c23Program(r)
+			sc.SetStr(fmt.Sprintf("prog%d", i), engine.Hex(code))
+			sc.SetStr(fmt.Sprintf("expect%d", i), engine.Hex(expect))
+		}
+		sc.SetP("slice_seed", int64(r.U64()>>1))
+		sc.Cycles = 17556 * 2
+		return sc
+	}
 	sc.Class = "program"
 	sc.Serial = index%5 != 4
-	var code []byte
-	var expect []byte
+	code, expect, reads := c23Program(r)
+	sc.SetStr("prog", engine.Hex(code))
+	sc.SetStr("expect", engine.Hex(expect))
+	sc.SetP("reads", int64(reads))
+	sc.Cycles = uint64(len(code))*3 + 2000
+	return sc
+}
+
+// c23Program generates one guest program and the bytes it writes to SB, in order.
+func c23Program(r *engine.Rand) (code, expect []byte, reads int) {
 	emit := func(b ...byte) { code = append(code, b...) }
 	// prologue: stack, buffer pointer, interrupts that return at once
 	emit(0x31, 0x00, 0xdf)       // LD SP,DF00
 	emit(0x21, 0x00, 0xd0)       // LD HL,D000 (read-back buffer)
 	emit(0x3e, 0x05, 0xe0, 0xff) // IE = VBlank|Timer
-	reads := 0
 	for i, n := 0, r.Range(10, 120); i < n; i++ {
 		switch k := r.Intn(16); {
 		case k < 6:
@@ -96,11 +118,7 @@ func (c23) Generate(r *engine.Rand, index int, tier string) *engine.Scenario {
 		}
 	}
 	emit(0xf3, 0x18, 0xfe)
-	sc.SetStr("prog", engine.Hex(code))
-	sc.SetStr("expect", engine.Hex(expect))
-	sc.SetP("reads", int64(reads))
-	sc.Cycles = uint64(len(code))*3 + 2000
-	return sc
+	return
 }
 
 // sbStore decodes the instruction at PC and reports whether it stores to FF01 and what.
@@ -169,6 +187,9 @@ func (c23) Execute(sc *engine.Scenario) *engine.Result {
 		res.Sig("rom/" + shortROM(sc.Str("rom")))
 		return res
 	}
+	if sc.Class == "pair" {
+		return c23Pair(sc, res)
+	}
 	m := build(sc, res)
 	if m == nil {
 		return res
@@ -182,10 +203,15 @@ func (c23) Execute(sc *engine.Scenario) *engine.Result {
 	m.CPU.VerifSetRegs(rg)
 	expect := engine.UnHex(sc.Str("expect"))
 	end := 0xc000 + uint16(len(prog)) - 2
-	// track what precedes SB writes for coverage
+	// the SB stores the CPU really executes (decoded at instruction boundaries), whatever path the
+	// program takes; also tracks what precedes SB writes for coverage
+	var executed []byte
 	m.OnCycle = func() {
 		if !m.CPU.VerifAtBoundary() {
 			return
+		}
+		if ok, v := sbStore(m); ok && !(m.IRQ.Enabled() && m.IRQ.Pending()) && !m.CPU.VerifHalted() {
+			executed = append(executed, v)
 		}
 		if ok, _ := sbStore(m); ok {
 			res.Probe("sb_writes")
@@ -225,6 +251,13 @@ func (c23) Execute(sc *engine.Scenario) *engine.Result {
 		return res
 	}
 	if m.CPU.VerifGetRegs().PC != end && m.CPU.VerifGetRegs().PC != end+2 {
+		// the program left its path (only an emulator that mishandles something can cause that): what
+		// was delivered is still judged against the SB stores that were executed
+		if sc.Serial {
+			if c23Compare(res, m.SerialOut, executed, "program-astray"); res.Violation != nil {
+				return res
+			}
+		}
 		res.Harness = fmt.Sprintf("C23 program did not reach its end (PC=%04x, end=%04x)", m.CPU.VerifGetRegs().PC, end)
 		return res
 	}
@@ -274,4 +307,76 @@ func c23Compare(res *engine.Result, got, want []byte, cls string) {
 	case len(got) > len(want):
 		res.Fail("C23/"+cls+"/extra-byte", uint64(n), "%d bytes were delivered but the guest wrote only %d to SB (extra byte %02x)", len(got), len(want), got[n])
 	}
+}
+
+// c23Pair: two instances advanced in seeded slices, both with slow writers.
+func c23Pair(sc *engine.Scenario, res *engine.Result) *engine.Result {
+	var ms [2]*machine.Machine
+	var ends [2]uint16
+	for i := range ms {
+		m := build(sc, res)
+		if m == nil {
+			return res
+		}
+		prog := engine.UnHex(sc.Str(fmt.Sprintf("prog%d", i)))
+		for j, b := range prog {
+			m.Write(0xc000+uint16(j), b)
+		}
+		rg := m.CPU.VerifGetRegs()
+		rg.PC = 0xc000
+		m.CPU.VerifSetRegs(rg)
+		m.SlowSerial = true
+		m.StartCo(int(sc.Cycles / 17556))
+		ms[i] = m
+		ends[i] = 0xc000 + uint16(len(prog)) - 2
+	}
+	r := engine.NewRand(uint64(sc.P("slice_seed", 1)))
+	done := [2]bool{}
+	for steps := 0; !(done[0] && done[1]) && steps < 200000; steps++ {
+		i := r.Intn(2)
+		if done[i] {
+			i = 1 - i
+		}
+		m := ms[i]
+		k := uint64(r.Range(1, 40))
+		if r.Chance(1, 8) {
+			k = uint64(r.Range(40, 3000))
+		}
+		if m.Resume(k) {
+			done[i] = true
+			if pi := m.CoPanic(); pi != nil {
+				if pi.Emulator {
+					res.Fail("C23/panic/"+pi.Site, m.N, "emulator panicked while two instances used their serial ports: %s", pi.Value)
+				} else {
+					res.Harness = pi.Value + "\n" + pi.Stack
+				}
+				break
+			}
+		}
+		if m.InWriter() {
+			res.Probe("blocked_in_writer_while_other_instance_runs")
+			res.Fault("serial_writer_stall")
+		} else if pc := m.CPU.VerifGetRegs().PC; pc == ends[i] || pc == ends[i]+2 {
+			done[i] = true // parked in its final loop
+		}
+	}
+	for _, m := range ms {
+		m.Abandon()
+		res.Cycles += m.N
+	}
+	if res.Violation != nil || res.Harness != "" {
+		return res
+	}
+	for i, m := range ms {
+		c23Compare(res, m.SerialOut, engine.UnHex(sc.Str(fmt.Sprintf("expect%d", i))), fmt.Sprintf("pair/instance%d", i))
+		if res.Violation != nil {
+			return res
+		}
+	}
+	res.Sig("pair")
+	dg := engine.NewDigest()
+	dg.Bytes(ms[0].SerialOut)
+	dg.Bytes(ms[1].SerialOut)
+	res.Digest = uint64(dg)
+	return res
 }
